@@ -46,7 +46,7 @@ CHECKS = {
         text="KeyToSlot is compared with the specification on every string over {,},a,b up to the bound (every arrangement of braces: empty tags, "
              "unbalanced, nested, repeated) and on all 1-2 byte keys; both CRC16 copies against a bitwise reference on all 1-2 byte inputs; the "
              "checkpoint-key search is run on all singleton ranges and a grid (quick) or on all 134M ranges (thorough); every chosen key must hash "
-             "inside its range and be excluded by the key filter under every filter configuration. Range queries are also asked as histories in one process (all ranges over 23 boundaries whose decimal digits run into each other, twice, in a different order per shard).",
+             "inside its range and be excluded by the key filter under every filter configuration. Range queries are also asked as histories in one process (all ranges over 23 boundaries whose decimal digits run into each other, twice, in a different order per shard). Further part (TestVerif_C15T): every cluster layout over a small set of cut points and three masters (masters owning one to three ranges, other masters' slots in the gaps, reply in either order) is answered as CLUSTER SLOTS to the real GetSlotDistribution; every derived shard range must contain only slots of its master, every slot must be in a shard, and the checkpoint key the real ChoseSlotInRange picks for the shard must hash (reference CRC16) into a slot of that master.",
         note="trusts crcref (bitwise CRC16/XMODEM, checked against the published check value 0x31c3) and the specification transcription in crcref.Slot",
         rule="cases = keys / byte strings / slot ranges, each distinct by construction of the enumeration; non-trivial = every case (each compares the real function's result with the reference)",
         parts=[
@@ -178,7 +178,7 @@ CHECKS = {
              "and no close is pending (checked on the private state at the moment of blocking), no deadlock or lost wake-up (a state with unfinished threads "
              "and nobody enabled), EOF only after draining, operations that start after a close completed fail at once with the right error. Sequentially, "
              "all words up to length 5 (7) over writes/reads of sizes {0,1,cap-1,cap,cap+1}, Buffered/Available and the four close variants are compared step "
-             "by step with a byte queue. A separate free-running -race build of the same scenario bodies looks for unsynchronised accesses.",
+             "by step with a byte queue. A separate free-running -race build of the same scenario bodies looks for unsynchronised accesses. File-backed pipes also run directed words over three laps of the ring (lagging reader, writes across the ring end; 4 MiB and 12 MiB rings) in the quick tier.",
         note="the scheduler is sequentially consistent and switches only at Lock/Wait/thread end (sound for data-race-free code; races are the -race pass's job); file-backed pipes (4 MiB minimum) get a reduced set in thorough only",
         rule="execution = one schedule of one scenario (or one sequential word); states = distinct observable histories per scenario plus distinct sequential words; transitions = scheduling steps / operations; non-trivial = scenarios (each has conflicting operations by construction) and sequential words",
         parts=[dict(pkg="./pkg/libs/io/pipe", harness=["pipe"], test="^TestVerif_C09$", race_test="^TestVerif_C09Race$", race=True, race_shards=4, shards=16,
@@ -226,7 +226,7 @@ CHECKS = {
              "offset must be the source offset right after the batch's last command, no batch spans a SELECT, nothing is sent unbatched; (b) cut at EVERY prefix "
              "(an open MULTI is discarded, as Redis does): the real LoadCheckpoint must return an offset whose source-history prefix reproduces exactly the cut "
              "dataset, with the sender's run id; (c) a fresh syncer is restarted at that offset and database on the cut state with the source re-served from the "
-             "next byte, and must end with the uninterrupted run's dataset. INCR/RPUSH/APPEND make a repeated command visible, SELECTs a checkpoint in the wrong db.",
+             "next byte, and must end with the uninterrupted run's dataset. INCR/RPUSH/APPEND make a repeated command visible, SELECTs a checkpoint in the wrong db. In half of the end-to-end histories the last command arrives 11 s after the others: the model master lists the tool in INFO replication (the port announced with REPLCONF listening-port, the last acknowledged offset), so the tool's once-per-10-s poll has run before the last checkpoint is written.",
         note="layer 1 (sender level, broad) uses a fixed start offset; layer 2 (whole Sync() runs incl. checkpoint load, PSYNC, full sync, ACK ticks, cut after every target command, real restart) covers fewer histories; command-granular cuts cover byte-granular ones because Redis executes only complete commands; trusts mredis' MULTI/EXEC discard semantics (A5)",
         rule="execution = (stream, configuration, schedule); each contributes one case per cut position; non-trivial = executions with more than one cut position (at least one command reached the target)",
         parts=[dict(pkg="./redis-shake/dbSync", harness=["dbsync"], test="^TestVerif_C04$", shards=16, gomaxprocs=2, budget=dict(quick=75, thorough=1500)),
